@@ -64,6 +64,9 @@ FIELD_KINDS = {
     "status": ("message", ".google.rpc.Status"), "policy": ("message", ".google.iam.v1.Policy"),
     "op": ("message", ".google.longrunning.Operation"),
 }
+# fields for which proto-plus `to_dict` output is not a valid request dict (int map keys / int64 as text, Value items and Any
+# as bare python values): the bytes-derived "request-dict" mode is not used with them (the literal mode writes real dicts)
+NO_TO_DICT = {"imap", "vals", "val", "meta", "vmap", "lv", "bigs", "big", "ubig", "status", "policy", "op"}
 RAW_FILES = {"status": "google/rpc/status.proto", "policy": "google/iam/v1/policy.proto", "op": "google/longrunning/operations.proto"}
 OPTIONALS = ("opt", "opt_s", "opt_b", "opt_color", "opt_book")
 # fixed helper messages: (name, kind…) in declaration order; numbers deliberately not ascending
@@ -127,6 +130,8 @@ def gen_method(r: apigen.Rng, idx: int):
         m = {"name": f"Op{idx}", "dep": None, "fields": [[n, num] for n, num in zip(names, numbers)]}
         pool = []
         for n in names:
+            if n == "vmap" and "val" not in names:
+                continue                  # a flattened map of an EXTERNAL value type loses its import (corpus: flattened_map_external_value)
             pool.append(n)
             for sp in SUB_PATHS.get(n, []):
                 # (the paths known to run into protobuf's assignment rules are kept rare: they are replayed from the corpus)
@@ -573,10 +578,6 @@ def lit_field(r, fd, v, reserved, types_mod, in_request=False):
             return {"t": "s", "v": int(k)}
         return {"t": "map", "v": [[key(k), lit_single(r, vf, x, reserved, types_mod)] for k, x in v.items()]}
     if fd.label == fd.LABEL_REPEATED:
-        if in_request and fd.message_type is not None and fd.message_type.full_name == "google.protobuf.Value":
-            # proto-plus cannot build a message from native items of a repeated Value (the reason for the templates'
-            # `.extend` special case): inside a REQUEST the caller writes struct_pb2.Value objects
-            return {"t": "list", "v": [{"t": "pb", "py": "google.protobuf.struct_pb2:Value", "json": x} for x in v]}
         return {"t": "list", "v": [lit_single(r, fd, x, reserved, types_mod) for x in v]}
     return lit_single(r, fd, v, reserved, types_mod)
 
@@ -651,6 +652,11 @@ def shape_flags(codec, input_full, sigs, reserved, cross):
         if term in terms:
             flags.add("dup-param")
         terms.append(term)
+        if fd.message_type is not None and fd.message_type.GetOptions().map_entry:
+            vf = fd.message_type.fields_by_name["value"]
+            vt = vf.message_type or vf.enum_type
+            if vt is not None and vt.file.package != PKG:
+                flags.add("map-external-value")
     return flags
 
 
@@ -664,6 +670,8 @@ def classify(kind, flags, plan=None, msg=""):
         return "cross-package-reserved-name:generator-keyerror"
     if kind == "import-failed" and "dup-param" in flags and "duplicate argument" in msg:
         return "duplicate-parameter-name:syntaxerror"
+    if kind == "import-failed" and "map-external-value" in flags and "NameError" in msg and "_pb2' is not defined" in msg:
+        return "flattened-map-external-value:missing-import"
     if plan is not None:
         given, falsy = plan[0], plan[1]
         rawrep, rawmsg = plan[2] if len(plan) > 2 else ([], [])
@@ -804,13 +812,19 @@ def run_api(ctx, r, spec, label, plans=None, expect_flags=False):
                         rq = lit_request(r, codec, inf["input"], full, reserved, types_mod)
                         form = r.pick(["instance", "dict", "positional"]) if not inf["cross"] else r.pick(["instance", "positional"])
                         calls.append({"method": mname, "kwargs": [lit_kw(p) for p in keys], "repeat": 2})
-                        calls.append({"method": mname, "request": rq, "request_form": form, "repeat": 2})
-                        calls.append({"method": mname, "request": rq, "request_form": r.pick(["instance", "dict"]) if not inf["cross"] else "instance",
-                                      "kwargs": [lit_kw(mixed_key)]})
+                        if "vals" in full:
+                            # proto-plus cannot CONSTRUCT a message with a repeated Value (a list is marshalled to ONE Value — the
+                            # reason for the templates' `.extend` special case): such a request is rebuilt from bytes
+                            calls.append(dict(base, mode="request-instance"))
+                            calls.append(dict(base, mode="mixed", kwargs=[[bypath[mixed_key][1], bypath[mixed_key][2]]]))
+                        else:
+                            calls.append({"method": mname, "request": rq, "request_form": form, "repeat": 2})
+                            calls.append({"method": mname, "request": rq, "request_form": r.pick(["instance", "dict"]) if not inf["cross"] else "instance",
+                                          "kwargs": [lit_kw(mixed_key)]})
                     else:
                         calls.append(dict(base, mode="kwargs", kwargs=kw))
                         # (proto-plus to_dict renders int map keys as text and Value items as bare python values: such a dict is not a valid request dict)
-                        dict_ok = not inf["cross"] and not any(f[0] in ("imap", "vals", "val", "meta", "vmap", "lv", "bigs", "big", "ubig") for f in (m["fields"] or []))
+                        dict_ok = not inf["cross"] and not any(f[0] in NO_TO_DICT for f in (m["fields"] or []))
                         calls.append(dict(base, mode=r.pick(["request-instance", "request-dict"]) if dict_ok else "request-instance"))
                         calls.append(dict(base, mode="mixed", kwargs=[[bypath[mixed_key][1], bypath[mixed_key][2]]]))
                     index.append((m, given, falsy, full, keys, mixed_key))
@@ -825,9 +839,11 @@ def run_api(ctx, r, spec, label, plans=None, expect_flags=False):
         ctx.traces += 1
         if imp.get("errors"):
             msg = "; ".join(f"{e[1]}: {e[2]}" for e in imp["errors"][:2])
-            if not emit_bad:
+            unmodelled_import = "NameError" in msg and any("map-external-value" in i["flags"] for i in info.values())
+            if not emit_bad and not unmodelled_import:      # (which modules a client imports is C01's: `emitCheck` does not model it)
                 ctx.disagree("T3:c05.emit", f"emitted service module does not import ({msg}) but the model's emitCheck passes", payload0)
-            bad = [m for m in spec["methods"] if model_emit[m["name"]] != "ok"] or spec["methods"]
+            bad = [m for m in spec["methods"] if model_emit[m["name"]] != "ok"] or \
+                [m for m in spec["methods"] if unmodelled_import and "map-external-value" in info[m["name"]]["flags"]] or spec["methods"]
             ctx.fail(classify("import-failed", info[bad[0]["name"]]["flags"], msg=msg),
                      f"the emitted client module cannot be imported: {msg}", {"spec": {"methods": bad[:1]}})
             return
